@@ -204,6 +204,7 @@ def c02(tier):
                  seg_spec('bytewise-all-N2', N=2, mode='bytewise-all'),
                  seg_spec('head-allcuts-N2', N=2, mode='head-allcuts', head=5),
                  seg_spec('burst-after-hs', N=2, mode='after-hs', big_prefix=16400),
+                 seg_spec('burst-after-hs-70k', N=2, mode='after-hs', big_prefix=70000, xval_stride=7),
                  seg_spec('frag-text-L3-allcuts', family=dict(opcode=1, L=3, max_frags=2), mode='frames-allcuts'),
                  # permessage-deflate negotiated (abstract zlib): RSV1 frames are compressed messages; the reply and the frames in one read vs cut
                  seg_spec('hs-joined-compressed-N3', N=3, mode='hs-joined-bytewise', compress=True, extra_headers_hex='5365632d576562536f636b65742d457874656e73696f6e733a207065726d6573736167652d6465666c6174650d0a'),
@@ -218,6 +219,8 @@ def c02(tier):
                  seg_spec('head-allcuts-N3', N=3, mode='head-allcuts', head=8),
                  seg_spec('burst-after-hs', N=3, mode='after-hs', big_prefix=16400),
                  seg_spec('burst-after-hs-64k', N=2, mode='after-hs', big_prefix=65400),
+                 seg_spec('burst-after-hs-70k', N=3, mode='after-hs', big_prefix=70000, xval_stride=7),
+                 seg_spec('burst-after-hs-140k', N=2, mode='after-hs', big_prefix=140000, xval_stride=7),
                  seg_spec('frag-text-L4-allcuts', family=dict(opcode=1, L=4, max_frags=3), mode='frames-allcuts'),
                  seg_spec('hs-joined-compressed-N4', N=4, mode='hs-joined-bytewise', compress=True, extra_headers_hex='5365632d576562536f636b65742d457874656e73696f6e733a207065726d6573736167652d6465666c6174650d0a'),
                  seg_spec('one-cut-anywhere-compressed-N4', N=4, mode='one-cut-anywhere', hs_window=60, compress=True, extra_headers_hex='5365632d576562536f636b65742d457874656e73696f6e733a207065726d6573736167652d6465666c6174650d0a')]
